@@ -810,10 +810,10 @@ pub fn check_scenarios(property: &str, cfg: &CheckCfg, parts: Vec<Box<dyn PartRu
         violations_new.len(),
         wall
     );
-    let exit_code = if harness_failed {
-        2
-    } else if !violations_new.is_empty() {
+    let exit_code = if !violations_new.is_empty() {
         1
+    } else if harness_failed {
+        2
     } else {
         0
     };
@@ -833,6 +833,7 @@ pub struct PartResult {
 pub trait PartRunner {
     fn run(&self, cfg: &CheckCfg, budget: Duration, known: &[KnownFinding], replay_dir: &Path) -> PartResult;
     fn name(&self) -> &'static str;
+    fn property(&self) -> &'static str;
     fn replay_file(&self, file: &ReplayFile, verbose: bool) -> Result<bool, String>;
 }
 
@@ -841,6 +842,9 @@ pub struct Part<S: Scenario>(pub Arc<S>);
 impl<S: Scenario> PartRunner for Part<S> {
     fn name(&self) -> &'static str {
         self.0.name()
+    }
+    fn property(&self) -> &'static str {
+        self.0.property()
     }
     fn replay_file(&self, file: &ReplayFile, verbose: bool) -> Result<bool, String> {
         replay(&self.0, file, verbose)
